@@ -116,6 +116,10 @@ func (w *Proxy) h2ReplyBuilder(u *peers.H2Upstream, r *peers.ReqRec, up *peers.U
 		body = nil // (a 204 response and the answer to a HEAD request have no body)
 	}
 	m.Body = body
+	if w.P.H2Trailers && len(body) > 0 && sim.Mix(w.S.Ch.Seed^0x747261696c, uint64(r.Idx))%3 == 0 {
+		// trailing header fields behind the body (what gRPC does)
+		m.Trailers = []peers.KV{{K: "grpc-status", V: "0"}, {K: "x-trailer-tok", V: r.Token}}
+	}
 	return m
 }
 
@@ -196,6 +200,12 @@ func (w *Proxy) setupH2Client(ci int, reqIdxP *int) {
 				}
 				m.Body = body
 			}
+		}
+		if w.P.H2Trailers && len(m.Body) > 0 && ch.Chance("work", "reqtrailers", 1, 3) {
+			m.Trailers = []peers.KV{{K: "x-req-trailer", V: "t-" + tok}, {K: "x-checksum", V: fmt.Sprint(len(m.Body))}}
+			// (announced, as RFC 7230 4.4 asks: like Go's server, MOSN's only hands on the request trailers that were)
+			m.Headers = append(m.Headers, peers.KV{K: "trailer", V: "x-req-trailer, x-checksum"})
+			s.Fault("w:h2_request_trailers")
 		}
 		r.HReq = m
 		w.H.Add(r)
@@ -289,7 +299,7 @@ func sameKVs(want, got []peers.KV, ignore func(k string) bool) string {
 
 func h2Ignore(k string) bool {
 	switch k {
-	case "host", "content-length", "x-mosn-host", "x-mosn-method", "x-mosn-path", "x-mosn-querystring", "date", "server", "x-host":
+	case "host", "content-length", "x-mosn-host", "x-mosn-method", "x-mosn-path", "x-mosn-querystring", "date", "server", "x-host", "trailer" /* the announcement of trailing fields is the hop's own */:
 		return true
 	}
 	return false
@@ -322,6 +332,9 @@ func (w *Proxy) checkC18() {
 		if d := sameKVs(r.HReq.Headers, up.H.Headers, h2Ignore); d != "" {
 			s.Violate("C18", "request_header_list_changed", "req#%d: %s", r.Idx, d)
 		}
+		if d := sameKVs(r.HReq.Trailers, up.H.Trailers, func(string) bool { return false }); d != "" {
+			s.Violate("C01", "h2_request_trailers_changed", "req#%d (stream mode %v): trailing header fields: %s", r.Idx, w.P.H2Stream, d)
+		}
 		if len(r.Replies) == 0 {
 			s.Violate("C18", "response_not_delivered", "req#%d: no complete response reached the client although the upstream answered and credit kept arriving (client windows: init=%d)", r.Idx, w.h2clients[0].O.InitWin)
 			continue
@@ -340,6 +353,12 @@ func (w *Proxy) checkC18() {
 		}
 		if d := sameKVs(want.Headers, rep.H.Headers, h2Ignore); d != "" {
 			s.Violate("C18", "response_header_list_changed", "req#%d: %s", r.Idx, d)
+		}
+		if d := sameKVs(want.Trailers, rep.H.Trailers, func(string) bool { return false }); d != "" {
+			s.Violate("C01", "h2_response_trailers_changed", "req#%d (stream mode %v): trailing header fields: %s", r.Idx, w.P.H2Stream, d)
+		}
+		if len(want.Trailers) > 0 {
+			w.Stats["h2_responses_with_trailers"]++
 		}
 	}
 }
